@@ -35,10 +35,14 @@ VARIABLES
   rhas,      \* BOOLEAN
   foreign,   \* [Clone \cup {"remote"} -> BOOLEAN]  some note there is not the one its author wrote (observed only)
   pushed, fetched,   \* [Clone -> BOOLEAN]  has pushed / then fetched since the last commit anywhere
+  feat,      \* which code paths of push / fetch the history has gone through (PushKind / FetchKind below). Two
+             \* histories that end in the same repositories but reached them through different paths (a push
+             \* whose tracking ref was stale, a first-time copy, ...) are different behaviours for the replay,
+             \* so this is part of the VIEW
   l, viol, drift, hist
 
-vars == <<nc, owner, known, rknown, ln, lhas, tr, rn, rhas, foreign, pushed, fetched, l, viol, drift, hist>>
-view == <<nc, owner, known, rknown, ln, lhas, tr, rn, rhas, pushed, fetched>>
+vars == <<nc, owner, known, rknown, ln, lhas, tr, rn, rhas, foreign, pushed, fetched, feat, l, viol, drift, hist>>
+view == <<nc, owner, known, rknown, ln, lhas, tr, rn, rhas, pushed, fetched, feat>>
 
 Gen == Mode = "gen"
 Rec == IF Mode = "trace" THEN ndJsonDeserialize(IOEnv.TRACE) ELSE <<>>
@@ -73,6 +77,19 @@ AfterFetch(i) ==
   IF ~rhas THEN [ln |-> ln[i], lhas |-> lhas[i], tr |-> tr[i]]
   ELSE [ln |-> IF lhas[i] THEN ln[i] \cup rn ELSE rn, lhas |-> TRUE, tr |-> rn]
 
+\* the path a push / fetch takes through sync_authorship.rs, from the state it starts in:
+\*   tracking ref absent / equal to the remote's notes / stale (the remote has moved since this clone last looked);
+\*   local notes ref absent / equal to the remote's notes / ahead of them / behind them / diverged (notes of its own
+\*   AND notes missing);  remote notes ref present or not
+PushKind(i) ==
+  (IF tr[i] = {} THEN "t0" ELSE IF tr[i] = rn THEN "tcur" ELSE "tstale")
+  \o (IF ~lhas[i] THEN "-l0" ELSE IF rn \subseteq ln[i] THEN (IF ln[i] = rn THEN "-leq" ELSE "-lahead")
+      ELSE IF ln[i] \subseteq rn THEN "-lbehind" ELSE "-ldiverged")
+  \o (IF rhas THEN "-r1" ELSE "-r0")
+FetchKind(i) ==
+  IF ~rhas THEN "nothing" ELSE IF ~lhas[i] THEN "copy" ELSE IF rn \subseteq ln[i] THEN "merge-noop"
+  ELSE IF ln[i] \subseteq rn THEN "merge-ff" ELSE "merge-both"
+
 Adopt(cln, clhas, ctr, crn, crhas, cknown, crknown) ==
   IF Gen
   THEN /\ ln' = cln /\ lhas' = clhas /\ tr' = ctr /\ rn' = crn /\ rhas' = crhas
@@ -102,6 +119,7 @@ Commit(i) ==
   /\ Adopt([ln EXCEPT ![i] = @ \cup {nc + 1}], [lhas EXCEPT ![i] = TRUE], tr, rn, rhas,
            [known EXCEPT ![i] = @ \cup {nc + 1}], rknown)
   /\ pushed' = [j \in Clone |-> FALSE] /\ fetched' = [j \in Clone |-> FALSE]
+  /\ feat' = feat
   /\ Step([a |-> "Commit", i |-> i])
 
 Push(i) ==
@@ -113,7 +131,8 @@ Push(i) ==
               known, rknown \cup known[i])
   /\ pushed' = [pushed EXCEPT ![i] = TRUE] /\ fetched' = [fetched EXCEPT ![i] = FALSE]
   /\ UNCHANGED <<nc, owner>>
-  /\ Step([a |-> "Push", i |-> i])
+  /\ feat' = feat \cup {"push:" \o PushKind(i)}
+  /\ Step([a |-> "Push", i |-> i, k |-> PushKind(i)])
 
 Fetch(i) ==
   /\ LET af == AfterFetch(i)
@@ -121,7 +140,8 @@ Fetch(i) ==
               [known EXCEPT ![i] = @ \cup rknown], rknown)
   /\ fetched' = [fetched EXCEPT ![i] = pushed[i]]
   /\ UNCHANGED <<nc, owner, pushed>>
-  /\ Step([a |-> "Fetch", i |-> i])
+  /\ feat' = feat \cup {"fetch:" \o FetchKind(i)}
+  /\ Step([a |-> "Fetch", i |-> i, k |-> FetchKind(i)])
 
 Init ==
   /\ nc = 0 /\ owner = [c \in 1..MaxCommit |-> "none"]
@@ -129,7 +149,7 @@ Init ==
   /\ ln = [i \in Clone |-> {}] /\ lhas = [i \in Clone |-> FALSE] /\ tr = [i \in Clone |-> {}]
   /\ rn = {} /\ rhas = FALSE
   /\ foreign = [r \in Repos |-> FALSE]
-  /\ pushed = [i \in Clone |-> FALSE] /\ fetched = [i \in Clone |-> FALSE]
+  /\ pushed = [i \in Clone |-> FALSE] /\ fetched = [i \in Clone |-> FALSE] /\ feat = {}
   /\ l = 1 /\ viol = {} /\ drift = {} /\ hist = <<>>
 
 Next ==
@@ -150,7 +170,7 @@ TrReset ==
   /\ known' = [i \in Clone |-> {}] /\ rknown' = {}
   /\ ln' = [i \in Clone |-> {}] /\ lhas' = [i \in Clone |-> FALSE] /\ tr' = [i \in Clone |-> {}]
   /\ rn' = {} /\ rhas' = FALSE /\ foreign' = [r \in Repos |-> FALSE]
-  /\ pushed' = [i \in Clone |-> FALSE] /\ fetched' = [i \in Clone |-> FALSE]
+  /\ pushed' = [i \in Clone |-> FALSE] /\ fetched' = [i \in Clone |-> FALSE] /\ feat' = {}
   /\ viol' = {} /\ drift' = {} /\ hist' = hist /\ l' = l + 1
 TraceNext ==
   /\ ~Gen
